@@ -66,6 +66,24 @@ buildmeta._bundled_pg_version = buildmeta.BackendVersion(
     string='PostgreSQL 17.2')
 
 
+def _install_rpc():
+    """edb.server.compiler.rpc is Cython: install the plain-Python stand-in
+    (lazily importable; it needs edb.server.compiler.enums)."""
+    import importlib.abc
+    import importlib.util
+
+    class _Finder(importlib.abc.MetaPathFinder):
+        def find_spec(self, name, path, target=None):
+            if name != 'edb.server.compiler.rpc':
+                return None
+            return importlib.util.spec_from_file_location(
+                name, os.path.join(HERE, 'rpc_shim.py'))
+    sys.meta_path.insert(0, _Finder())
+
+
+_install_rpc()
+
+
 # ------------------------------------------------------------------ cache
 _KEY = None
 
